@@ -821,6 +821,17 @@ class VizierServicer(vizier_service_pb2_grpc.VizierServiceServicer):
       output_operation = self.datastore.get_early_stopping_operation(
           output_operation.name
       )
+      if (
+          output_operation.status
+          == vizier_oss_pb2.EarlyStoppingOperation.Status.ACTIVE
+      ):
+        # Pythia returned no decision for this trial. Finish the operation, so
+        # that it is recycled instead of answering every later check.
+        output_operation.status = (
+            vizier_oss_pb2.EarlyStoppingOperation.Status.DONE
+        )
+        output_operation.completion_time.CopyFrom(_get_current_time())
+        self.datastore.update_early_stopping_operation(output_operation)
       return vizier_service_pb2.CheckTrialEarlyStoppingStateResponse(
           should_stop=output_operation.should_stop
       )
